@@ -13,7 +13,6 @@ Sweep  every Unicode code point U+0000..U+10FFFF at one position of 1-3 contexts
 E5  the live pattern of the five RegularExpressionConversions against hand-written
     automata, all lengths (vz.engine.dfa).
 """
-import collections
 import itertools
 import os
 import shutil
